@@ -85,6 +85,26 @@ __CPROVER_requires(1 <= m_pass_stack_cap && m_pass_stack_cap <= FSL_BASIN_NMAX &
 __CPROVER_requires(nbasins <= m_parent_basins_cap && m_parent_basins_cap <= FSL_BASIN_NMAX && __CPROVER_is_fresh(m_parent_basins, m_parent_basins_cap * sizeof(size_t)))
 __CPROVER_requires(m_keep_order == 0 || m_keep_order == 1)
 """
+
+
+def _split_fresh(shape):
+    """the same clauses with every `bounds && is_fresh(..)` cut into `requires(bounds) requires(is_fresh(..))`: inside a conjunction the allocation is
+    conditional, symex then keeps the pointer's initial (invalid) target in its value set and every later dereference becomes a two-way case split
+    with a byte-level fallback (measured on the CSR fill slice: 6391 byte_extract operators, out of memory; none and 40 s after the cut)"""
+    out = []
+    for line in shape.strip().splitlines():
+        if line.startswith("__CPROVER_requires(") and "__CPROVER_is_fresh(" in line:
+            assert line.endswith(")")
+            parts = line[len("__CPROVER_requires("):-1].split(" && ")
+            plain = [c for c in parts if "__CPROVER_is_fresh(" not in c]
+            if plain:
+                out.append("__CPROVER_requires(%s)" % " && ".join(plain))
+            out.extend("__CPROVER_requires(%s)" % c for c in parts if "__CPROVER_is_fresh(" in c)
+        else:
+            out.append(line)
+    return "\n" + "\n".join(out) + "\n"
+
+
 # lengths as they are when the depth-first parse runs
 OR_LENS = r"""
 __CPROVER_requires(m_nodes_connects_size_n == nbasins && m_nodes_connects_ptr_n == nbasins && m_nodes_adjacency_n <= m_nodes_adjacency_cap)
@@ -221,8 +241,9 @@ DFS_PRE = r"""
     && (ECHILD(e) != SIZE_MAX || L0(e) == (ol0)))
 #endif
 """
-DFS_SHAPE = OR_SHAPE + OR_LENS + r"""
-__CPROVER_requires(__CPROVER_is_fresh(TG, nbasins * sizeof(struct or_tnode)) && __CPROVER_is_fresh(ECH, m_edges_n * sizeof(size_t)))
+DFS_SHAPE = _split_fresh(OR_SHAPE) + OR_LENS + r"""
+__CPROVER_requires(__CPROVER_is_fresh(TG, nbasins * sizeof(struct or_tnode)))
+__CPROVER_requires(__CPROVER_is_fresh(ECH, m_edges_n * sizeof(size_t)))
 __CPROVER_requires(OGE < m_edges_n && OGS < m_reorder_stack_cap && OGB < nbasins)
 /* documented domain: an unmasked base-level node exists, so connect_basins chose a root basin (m_root == size_type(-1) would index
  * m_parent_basins / m_nodes_connects_ptr out of bounds) */
@@ -243,7 +264,7 @@ DFS_ASSIGNS = ("__CPROVER_object_whole(m_edges), __CPROVER_object_whole(m_reorde
 
 orient_pop = Unit(
     name="orient_pop", file=BG_H, anchor=OR_ANCHOR, inner=POP_INNER,
-    sig="void orient_pop(%s%s)" % (OR_PARAMS, TG_PARAMS), pre=DFS_PRE,
+    sig="void orient_pop(%s%s)" % (OR_PARAMS, TG_PARAMS), pre=OR_PRE + DFS_PRE,
     rules=[RB(VISIT_INNER.replace(r"\s*\{", ""),
               "{ /* instances: CSR postcondition at slot i, room below the ghost capacities (model artefact), induction hypothesis `the end points "
               "of a tree edge are its child and that child's parent` at the edge read */\n"
@@ -272,7 +293,7 @@ __CPROVER_loop_invariant(!(HASP(OGB) && TPAR(OGB) == m_root) || OGV_P || node ==
 )
 
 orient_dfs = Unit(
-    name="orient_dfs", file=BG_H, anchor=OR_ANCHOR, sig="void orient_dfs(%s%s)" % (OR_PARAMS, TG_PARAMS), pre=DFS_PRE,
+    name="orient_dfs", file=BG_H, anchor=OR_ANCHOR, sig="void orient_dfs(%s%s)" % (OR_PARAMS, TG_PARAMS), pre=OR_PRE + DFS_PRE,
     rules=[CUT_KEEP_DFS,
            RB(POP_INNER.replace(r"\s*\{", ""),
               "{ /* induction-hypothesis instance of the stack-element invariant at the slot that is popped (DESIGN 3.9) */\n"
@@ -482,15 +503,214 @@ G_CSR = Group(
            "as long as the basin's degree in the tree and end inside the table; every slot of a row holds a tree edge incident to the basin; every tree "
            "edge occurs in the rows of both its end points")
 
+# --------------------------------------------------------------------------- (a') the CSR phase, SLICED (same text, same clauses as orient_csr)
+# The monolithic unit orient_csr (7 is_fresh objects, three loop contracts, five replaced callees) runs out of memory.  The text of the CSR phase is
+# therefore cut at three fixed statements into four consecutive slices, each extracted from /repo on every run, each with ONLY the buffers it touches
+# and its own contract {S(k-1)} slice k {S(k)}; the state predicates S0..S3 below are the clauses of orient_csr's loop invariants / postcondition,
+# verbatim up to the ghost scalar OR_DEG that stands for `CUM[m_tree_n]` (the degree of the ghost basin) where the count table is not in scope.
+# Sequencing (what a slice requires is what the previous one ensures, nothing in between assigns it) is checked textually at import.
+#   init    [start, first tree loop)                      resize / fill / resize          size, ptr
+#   count   [first tree loop, `m_nodes_connects_ptr[0] = 0;`)   count loop                  edges, tree, size, CUM
+#   prefix  [`m_nodes_connects_ptr[0] = 0;`, second tree loop)  prefix loop, resize, reset  size, ptr, adjacency
+#   fill    [second tree loop, `m_reorder_stack.reserve`)       fill loop (lemmas)          edges, tree, size, ptr, adjacency, CUM (, ECH)
+def _blank(m):
+    return "\n" * m.group(0).count("\n")   # keep line numbers (#line) valid
+
+
+_TL = r"for \(size_type l_id : m_tree\)"
+_P0 = r"m_nodes_connects_ptr\[0\] = 0;"
+CSR_SLICE = {
+    "init": [R(_TL + r".*\Z", _blank, 1, flags=_re.S)],
+    "count": [R(r"\A.*?(?=%s)" % _TL, _blank, 1, flags=_re.S), R(_P0 + r".*\Z", _blank, 1, flags=_re.S)],
+    "prefix": [R(r"\A.*?(?=%s)" % _P0, _blank, 1, flags=_re.S), R(_TL + r".*\Z", _blank, 1, flags=_re.S)],
+    "fill": [R(r"\A.*(?=%s)" % _TL, _blank, 1, flags=_re.S), R(r"m_reorder_stack\.reserve\(.*\Z", _blank, 1, flags=_re.S)],
+}
+CSR_PRE2 = r"""
+#ifndef FSL_ORIENT_CSR2
+#define FSL_ORIENT_CSR2
+size_t OR_DEG;   /* ghost scalar: the degree of the ghost basin OGB in the tree, `OR_DEG == CUM[m_tree_n]` wherever the ghost count table is in scope */
+/* TREE_WF without the tree marker (slices that do not speak about ECH assume less) */
+#define TREE_WF0(e) ((e) < m_edges_n && L0(e) < nbasins && L1(e) < nbasins && L0(e) != L1(e))
+#define CUM_DEF2(t) (CUM[(t) + 1] == CUM[(t)] + INC(TR(t)) && CUM[(t) + 1] <= OR_DEG)
+/* ROW_ROOM with the two bounds that exclude wrap-around of the sum: the fact that is PROVED at the ghost basin (when the edge read is incident to it)
+ * and then instantiated at the two end points of the edge read */
+#define ROW_ROOM2(b) (CP(b) <= 2 * m_tree_n && CS(b) <= 2 * m_tree_n && CP(b) + CS(b) < ROW_END(b) && ROW_END(b) <= m_nodes_adjacency_n)
+#endif
+"""
+def _fresh(bounds, ptr, count, elem):
+    """is_fresh in a requires clause OF ITS OWN: inside `bounds && is_fresh(..)` the allocation is conditional, symex then keeps the pointer's initial
+    (invalid) target in its value set and every later dereference becomes a two-way case split with a byte-level fallback (measured: 6391 byte_extract
+    operators in the fill slice, out of memory)"""
+    return ("__CPROVER_requires(%s)\n" % bounds if bounds else "") + "__CPROVER_requires(__CPROVER_is_fresh(%s, %s * sizeof(%s)))\n" % (ptr, count, elem)
+
+
+_FR_EDGES = _fresh("1 <= m_edges_n && m_edges_n <= FSL_BASIN_NMAX", "m_edges", "m_edges_n", "struct fsl_edge")
+_FR_CAP = "__CPROVER_requires(nbasins <= m_nodes_connects_cap && m_nodes_connects_cap <= FSL_BASIN_NMAX)\n"
+_FR_SIZE = _fresh("", "m_nodes_connects_size", "m_nodes_connects_cap", "size_t")
+_FR_PTR = _fresh("", "m_nodes_connects_ptr", "m_nodes_connects_cap", "size_t")
+_FR_ADJ = _fresh("1 <= m_nodes_adjacency_cap && m_nodes_adjacency_cap <= FSL_BASIN_NMAX", "m_nodes_adjacency", "m_nodes_adjacency_cap", "size_t")
+_FR_TREE = _fresh("1 <= m_tree_cap && m_tree_cap <= FSL_BASIN_NMAX && m_tree_n <= m_tree_cap", "m_tree", "m_tree_cap", "size_t")
+_FR_CUM = _fresh("m_tree_n + 1 <= CUMN && CUMN <= FSL_BASIN_NMAX + 1", "CUM", "CUMN", "size_t")
+_FR_ECH = _fresh("", "ECH", "m_edges_n", "size_t")
+_RQ_GH = "__CPROVER_requires(1 <= nbasins && nbasins <= FSL_BASIN_NMAX && OGB < nbasins && OGB2 < nbasins && OGI < m_nodes_adjacency_cap && OGT < m_tree_cap)\n"
+# model artefact, as in orient_csr: ghost capacity of the adjacency table = two slots per tree edge (the real vector reallocates)
+_RQ_ADJCAP = "__CPROVER_requires(m_tree_n <= FSL_BASIN_NMAX && m_tree_n <= m_nodes_adjacency_cap && 2 * m_tree_n <= m_nodes_adjacency_cap && m_nodes_adjacency_cap <= FSL_BASIN_NMAX)\n"
+# definition of the ghost count table at its first and last entry
+_RQ_CUM = "__CPROVER_requires(CUM[0] == 0 && OR_DEG == CUM[m_tree_n])\n"
+
+S_LEN = "m_nodes_connects_size_n == nbasins && m_nodes_connects_ptr_n == nbasins"
+S_ADJN = "m_nodes_adjacency_n <= m_nodes_adjacency_cap"
+CSR_ROWS2 = "(OR_DEG <= 2 * m_tree_n && " + CSR_ROWS.replace("DEGB", "OR_DEG")[1:]
+CSR_S0 = [S_LEN, "CS(OGB) == 0"]
+CSR_S1 = [S_LEN, "CS(OGB) == OR_DEG && OR_DEG <= 2 * m_tree_n"]
+CSR_S2 = [S_LEN, S_ADJN, "CS(OGB) == 0", CSR_ROWS2]
+CSR_S3 = {"cnt": "CS(OGB) == OR_DEG", "p1": CSR_P1, "p2": CSR_P2 % "m_tree_n"}
+
+
+def _req(cl):
+    return "".join("__CPROVER_requires(%s)\n" % c for c in cl)
+
+
+def _ens(cl):
+    return "".join("__CPROVER_ensures(%s)\n" % c for c in cl)
+
+
+orient_csr_init = Unit(
+    name="orient_csr_init", file=BG_H, anchor=OR_ANCHOR, sig="void orient_csr_init(%s%s)" % (OR_PARAMS, CSR_PARAMS), pre=OR_PRE + CSR_PRE + CSR_PRE2,
+    rules=CSR_SLICE["init"] + OR_VOCAB,
+    contract=_RQ_GH + _FR_CAP + _FR_SIZE + _FR_PTR + r"""
+/* NOTHING is required of the contents or lengths of m_nodes_connects_size / _ptr (C09: scratch state of earlier calls) */
+__CPROVER_requires(m_nodes_connects_size_n <= m_nodes_connects_cap && m_nodes_connects_ptr_n <= m_nodes_connects_cap)
+__CPROVER_assigns(m_nodes_connects_size_n, m_nodes_connects_ptr_n, __CPROVER_object_whole(m_nodes_connects_size), __CPROVER_object_whole(m_nodes_connects_ptr))
+""" + _ens(CSR_S0))
+
+orient_csr_count = Unit(
+    name="orient_csr_count", file=BG_H, anchor=OR_ANCHOR, sig="void orient_csr_count(%s%s)" % (OR_PARAMS, CSR_PARAMS), pre=OR_PRE + CSR_PRE + CSR_PRE2,
+    rules=CSR_SLICE["count"] + [
+        R(_TL, "for (size_t t1_ = 0; t1_ < m_tree_n; ++t1_)", 1),
+        # the element read instantiates the input well-formedness of the tree entry and the definition of CUM at the slot
+        RB(r"for \(size_t t1_ = 0; t1_ < m_tree_n; \+\+t1_\)",
+           "{ const size_t l_id_ = m_tree[FSL_IDX1(t1_, m_tree_n)]; FSL_PRE(TREE_WF0(l_id_) && CUM_DEF2(t1_)); orient_count(%s%s, l_id_); }" % (OR_ARGS, CSR_ARGS))] + OR_VOCAB,
+    contract=_RQ_GH + _FR_EDGES + _FR_CAP + _FR_SIZE + _FR_TREE + _FR_CUM + _RQ_CUM + _req(CSR_S0) + r"""
+__CPROVER_assigns(__CPROVER_object_whole(m_nodes_connects_size))
+""" + _ens(CSR_S1),
+    loops={0: r"""
+__CPROVER_assigns(t1_, __CPROVER_object_whole(m_nodes_connects_size))
+__CPROVER_loop_invariant(t1_ <= m_tree_n && CS(OGB) == CUM[t1_] && CUM[t1_] <= 2 * t1_)
+__CPROVER_decreases(m_tree_n - t1_)
+"""})
+
+orient_csr_prefix = Unit(
+    name="orient_csr_prefix", file=BG_H, anchor=OR_ANCHOR, sig="void orient_csr_prefix(%s%s)" % (OR_PARAMS, CSR_PARAMS), pre=OR_PRE + CSR_PRE + CSR_PRE2,
+    rules=CSR_SLICE["prefix"] + [
+        # instance at basin 0 of the postcondition of the count slice (degree of a basin <= 2 * |tree|, proved there at the arbitrary ghost basin)
+        R(r"(?=" + _P0 + ")", "FSL_PRE(m_nodes_connects_size[0] <= 2 * m_tree_n); ", 1),
+        # prefix loop: instance of `prefix sums of the degree counts are bounded by their total 2 * |tree|` (double counting, not mechanised)
+        R(r"(for \(size_t i = [^{}]*\)\s*)\{", r"\1{ FSL_PRE(!(1 <= i && i < nbasins) || (m_nodes_connects_ptr[i - 1] + m_nodes_connects_size[i - 1] <= 2 * m_tree_n "
+          r"&& m_nodes_connects_size[i] <= 2 * m_tree_n - (m_nodes_connects_ptr[i - 1] + m_nodes_connects_size[i - 1])));", 1)] + OR_VOCAB,
+    contract=_RQ_GH + _FR_CAP + _FR_SIZE + _FR_PTR + _FR_ADJ + _RQ_ADJCAP + r"""
+/* NOTHING is required of the contents or length of m_nodes_adjacency (C09) */
+__CPROVER_requires(m_nodes_adjacency_n <= m_nodes_adjacency_cap)
+""" + _req(CSR_S1) + r"""
+__CPROVER_assigns(m_nodes_adjacency_n, __CPROVER_object_whole(m_nodes_connects_size), __CPROVER_object_whole(m_nodes_connects_ptr), __CPROVER_object_whole(m_nodes_adjacency))
+""" + _ens(CSR_S2),
+    loops={0: r"""
+__CPROVER_assigns(i, __CPROVER_object_whole(m_nodes_connects_size), __CPROVER_object_whole(m_nodes_connects_ptr))
+__CPROVER_loop_invariant(1 <= i && i <= nbasins && CP(0) == 0 && OR_DEG <= 2 * m_tree_n)
+/* counts below i - 1 are reset, the others still hold the degree; pointers up to i - 1 are prefix sums */
+__CPROVER_loop_invariant(OGB + 1 < i ? (CS(OGB) == 0 && CP(OGB + 1) == CP(OGB) + OR_DEG) : CS(OGB) == OR_DEG)
+__CPROVER_loop_invariant(CP(i - 1) + CS(i - 1) <= 2 * m_tree_n && (OGB >= i || (CP(OGB) <= 2 * m_tree_n && CP(OGB) + OR_DEG <= CP(i - 1) + CS(i - 1))))
+__CPROVER_loop_invariant(!(OGB < OGB2 && OGB2 < i) || CP(OGB) + OR_DEG <= CP(OGB2))
+__CPROVER_decreases(nbasins - i)
+"""})
+
+# lemma -> clauses of the fill loop's invariant / of the final state that it carries (`cnt` is needed by both others: IN_ROW speaks about CS(OGB))
+CSR_FILL_LEMMAS = {"cnt": ["cnt"], "p1": ["cnt", "p1"], "p2": ["cnt", "p2"]}
+_FILL_INV = {"cnt": "t2_ <= m_tree_n && CS(OGB) == CUM[t2_] && CUM[t2_] <= OR_DEG", "p1": CSR_P1, "p2": CSR_P2 % "t2_"}
+
+
+def make_csr_fill(lemma):
+    parts = CSR_FILL_LEMMAS[lemma]
+    ech = "p1" in parts
+    wf = "TREE_WF" if ech else "TREE_WF0"
+    return Unit(
+        name="orient_csr_fill", file=BG_H, anchor=OR_ANCHOR, sig="void orient_csr_fill(%s%s)" % (OR_PARAMS, CSR_PARAMS), pre=OR_PRE + CSR_PRE + CSR_PRE2,
+        rules=CSR_SLICE["fill"] + [
+            R(_TL, "for (size_t t2_ = 0; t2_ < m_tree_n; ++t2_)", 1),
+            RB(r"for \(size_t t2_ = 0; t2_ < m_tree_n; \+\+t2_\)",
+               "{ const size_t l_id_ = m_tree[FSL_IDX1(t2_, m_tree_n)]; FSL_PRE(%s(l_id_) && CUM_DEF2(t2_));\n"
+               "  /* proved at the ghost basin BEFORE the same fact is instantiated at the end points of the edge */\n"
+               "  __CPROVER_assert(!INCIDENT(l_id_) || ROW_ROOM2(OGB), \"CSR: the row of the ghost basin is not full as long as an incident edge is still to be stored\");\n"
+               "  FSL_PRE(ROW_ROOM2(L0(l_id_)) && ROW_ROOM2(L1(l_id_)) && ROW_DISJ(L0(l_id_), OGB) && ROW_DISJ(L1(l_id_), OGB));\n"
+               "  /* ghost witness: where the edge of the ghost tree slot goes in the row of the ghost basin */ if (t2_ == OGT && INCIDENT(l_id_)) OW = CP(OGB) + CS(OGB);\n"
+               "  orient_fill(%s%s, l_id_); }" % (wf, OR_ARGS, CSR_ARGS))] + OR_VOCAB,
+        contract=_RQ_GH + _FR_EDGES + _FR_CAP + _FR_SIZE + _FR_PTR + _FR_ADJ + _FR_TREE + _FR_CUM + (_FR_ECH if ech else "") + _RQ_ADJCAP + _RQ_CUM + r"""
+/* the ghost tree slot holds a tree entry (input well-formedness, instance at the ghost slot) */
+__CPROVER_requires(OGT >= m_tree_n || """ + wf + r"""(TR(OGT)))
+""" + _req(CSR_S2) + r"""
+__CPROVER_assigns(OW, __CPROVER_object_whole(m_nodes_connects_size), __CPROVER_object_whole(m_nodes_adjacency))
+""" + _ens([S_LEN, S_ADJN, CSR_ROWS2] + [CSR_S3[p] for p in parts]),
+        loops={0: r"""
+__CPROVER_assigns(t2_, OW, __CPROVER_object_whole(m_nodes_connects_size), __CPROVER_object_whole(m_nodes_adjacency))
+""" + "".join("__CPROVER_loop_invariant(%s)\n" % _FILL_INV[p] for p in parts) + r"""
+__CPROVER_decreases(m_tree_n - t2_)
+"""})
+
+
+def _check_csr_sequencing():
+    """{S(k-1)} slice k {S(k)}: every state clause a slice requires is ensured verbatim by the previous slice, whose text ends where this one's begins"""
+    chain = [("init", [], CSR_S0), ("count", CSR_S0, CSR_S1), ("prefix", CSR_S1, CSR_S2), ("fill", CSR_S2, None)]
+    have = []
+    for name, pre, post in chain:
+        for c in pre:
+            if c not in have:
+                raise AssertionError("orient CSR slices: %s requires %r which the previous slice does not ensure" % (name, c))
+        have = post or []
+    # consecutive: the cut that ends slice k is the cut that starts slice k + 1
+    assert CSR_SLICE["init"][-1].pat == _TL + r".*\Z" and CSR_SLICE["count"][0].pat == r"\A.*?(?=%s)" % _TL
+    assert CSR_SLICE["count"][-1].pat == _P0 + r".*\Z" and CSR_SLICE["prefix"][0].pat == r"\A.*?(?=%s)" % _P0
+    assert CSR_SLICE["prefix"][-1].pat == _TL + r".*\Z" and CSR_SLICE["fill"][0].pat == r"\A.*(?=%s)" % _TL
+
+
+_check_csr_sequencing()
+
+_CSR_VSZ = ["fsl_vsz_resize_o", "fsl_vsz_fill_o", "fsl_vsz_resize_adj"]
+G_CSR_INIT = Group(
+    name="orient.csr.init", units=[orient_csr_init], extra_c=[MODEL_H, OR_H],
+    harness=H_CSR % dict(fn="orient_csr_init", call="orient_csr_init(%s%s)" % (OR_ARGS, CSR_ARGS), pre=""),
+    entry="h_orient_csr_init", enforce="orient_csr_init", replace=["fsl_vsz_resize_o", "fsl_vsz_fill_o"], backend="cadical", timeout=600, min_obligations=5, no_checks=NOPO,
+    clause="orient_edges, CSR phase, slice `init` (up to the count loop) on ARBITRARY pre-state of m_nodes_connects_size / _ptr: both have basins_count() entries, "
+           "every count is 0")
+G_CSR_COUNT = Group(
+    name="orient.csr.count.loop", units=[orient_count, orient_csr_count], extra_c=[MODEL_H, OR_H],
+    harness=H_CSR % dict(fn="orient_csr_count", call="orient_csr_count(%s%s)" % (OR_ARGS, CSR_ARGS), pre=""),
+    entry="h_orient_csr_count", enforce="orient_csr_count", replace=["orient_count"], loop_contracts=True, backend="cadical", timeout=900, min_obligations=20, no_checks=NOPO,
+    clause="orient_edges, CSR phase, slice `count` (the count loop, any number of tree edges): afterwards the count of an arbitrary basin is its degree in the tree "
+           "(ghost count table defined by its recurrence), at most 2 * |tree|")
+G_CSR_PREFIX = Group(
+    name="orient.csr.prefix.loop", units=[orient_csr_prefix], extra_c=[MODEL_H, OR_H],
+    harness=H_CSR % dict(fn="orient_csr_prefix", call="orient_csr_prefix(%s%s)" % (OR_ARGS, CSR_ARGS), pre=""),
+    entry="h_orient_csr_prefix", enforce="orient_csr_prefix", replace=["fsl_vsz_resize_adj"], loop_contracts=True, backend="cadical", timeout=900, min_obligations=20, no_checks=NOPO,
+    clause="orient_edges, CSR phase, slice `prefix` (prefix loop, resize of the adjacency table, reset of the last count; any number of basins) on ARBITRARY "
+           "pre-state of m_nodes_adjacency: rows are consecutive, as long as the basin's degree, rows of different basins do not overlap, the table ends with "
+           "the last row and has at most 2 * |tree| slots; every count is reset to 0")
+G_CSR_FILL = [Group(
+    name="orient.csr.fill.loop.%s" % l, units=[orient_fill, make_csr_fill(l)], extra_c=[MODEL_H, OR_H],
+    harness=H_CSR % dict(fn="orient_csr_fill", call="orient_csr_fill(%s%s)" % (OR_ARGS, CSR_ARGS), pre=""),
+    entry="h_orient_csr_fill", enforce="orient_csr_fill", replace=["orient_fill"], loop_contracts=True, backend="cadical", timeout=900, min_obligations=20, no_checks=NOPO,
+    clause="orient_edges, CSR phase, slice `fill` (the fill loop, any number of tree edges), lemma `%s`: %s" % (l, w))
+    for l, w in [("cnt", "the fill count of an arbitrary basin ends up equal to its degree; its row is never full as long as an incident edge is still to be stored"),
+                 ("p1", "every filled slot of the row of an arbitrary basin holds a tree edge incident to that basin"),
+                 ("p2", "an arbitrary tree edge incident to an arbitrary basin occurs in the filled part of that basin's row")]]
+G_CSR_SLICES = [G_CSR_INIT, G_CSR_COUNT, G_CSR_PREFIX] + G_CSR_FILL
+
 # --------------------------------------------------------------------------- BOUNDED: the whole function on all trees with <= NB_B basins
 import os as _os
-NB_B = int(_os.environ.get("OR_NB", "4"))      # basins
-NE_B = int(_os.environ.get("OR_NE", "4"))      # entries of m_edges (tree edges + edges that did not enter the tree)
 TREE_LOOPS = [R(r"for \(size_type l_id : m_tree\)\s*\{", "for (size_t t_ = 0; t_ < m_tree_n; ++t_)\n{ size_t l_id = m_tree[FSL_IDX1(t_, m_tree_n)];", 2)]
 orient_edges_b = Unit(
     name="orient_edges_b", file=BG_H, anchor=OR_ANCHOR, sig="void orient_edges_b(%s)" % OR_PARAMS, pre=OR_PRE, rules=TREE_LOOPS + OR_VOCAB)
 
-H_OR_B = r"""
+H_OR_B_T = r"""
 size_t nondet_size_t(void); _Bool nondet_bool(void); double nondet_double(void);
 #define NB %(NB)d
 #define NE %(NE)d
@@ -548,11 +768,13 @@ void h_orient_bounded(void)
     __CPROVER_assert(m_reorder_stack_n == 0, "the depth-first parse ends with an empty stack");
     __CPROVER_assert(0, "canary: postcondition point reachable");
 }
-""" % dict(NB=NB_B, NE=NE_B)
+"""
 
-G_OR_BOUNDED = Group(
-    name="orient.bounded", units=[orient_edges_b], extra_c=[MODEL_H, OR_H], harness=H_OR_B, entry="h_orient_bounded",
-    defines=["OR_CONCRETE_VEC"], backend="sat", timeout=1500, min_obligations=20,
+
+def or_bounded(NB_B, NE_B, tier, timeout):
+  return Group(
+    name="orient.bounded.b%d" % NB_B, units=[orient_edges_b], extra_c=[MODEL_H, OR_H], harness=H_OR_B_T % dict(NB=NB_B, NE=NE_B), entry="h_orient_bounded",
+    defines=["OR_CONCRETE_VEC"], backend="sat", timeout=timeout, min_obligations=20, tier=tier,
     # loops of the function: count / prefix / fill over <= NB-1 tree edges resp. NB basins, at most NB pops, at most NB-1 incident edges per basin
     unwindset={("orient_edges_b", 0): NB_B, ("orient_edges_b", 1): NB_B, ("orient_edges_b", 2): NB_B, ("orient_edges_b", 3): NB_B + 1, ("orient_edges_b", 4): NB_B},
     unwind=NB_B + 2,   # harness loops and the executable vector models
@@ -561,6 +783,11 @@ G_OR_BOUNDED = Group(
     clause="orient_edges, whole extracted function: after orientation every tree edge connected to the root is stored as (basin nearer the root, "
            "farther basin); link and pass are swapped together; weights, lengths and edges outside the tree are untouched; every index stays inside "
            "its vector (CSR tables sized by this call)")
+
+
+NB_B = 3   # bound of the quick-tier group (stated in PROPS)
+G_OR_BOUNDED = or_bounded(3, 3, "quick", 900)
+G_OR_BOUNDED4 = or_bounded(4, 4, "thorough", 3000)
 
 # =========================================================================== update_routes_sinks_carve (C01)
 from spec.basin import SB_VOCAB
@@ -770,9 +997,9 @@ G_CV_STEP = [Group(
            "the pit sits at the last chain position), lemma `%s`: %s" % (l, _CV_WHAT[l])) for l in CV_LEMMAS]
 
 # groups whose proofs do not finish on any installed back end yet (memory / time): kept for development, NOT registered, nothing is claimed from them
-EXPERIMENTAL = [G_CSR, G_POP, G_DFS]
+EXPERIMENTAL = [G_CSR, G_POP, G_DFS] + G_CSR_SLICES
 
-_OR_GROUPS = [G_COUNT, G_FILL, G_VISIT, G_OR_BOUNDED]
+_OR_GROUPS = [G_COUNT, G_FILL, G_VISIT, G_OR_BOUNDED, G_OR_BOUNDED4] + (EXPERIMENTAL if _os.environ.get("OR_EXPERIMENTAL") else [])
 GROUPS = {"C15": _OR_GROUPS, "C01": G_CV_STEP, "C08": [G_COUNT, G_FILL, G_VISIT] + G_CV_STEP}
 PROPS = {
     "C15": dict(
